@@ -18,6 +18,14 @@ always:
               report, its message and its location are compared).
 Every compound sub-expression is parenthesised, so the text parses to the tree
 that was drawn (`(e)` with one element is a parenthesis, not a tuple).
+
+Third audit: statement nesting goes to depth 4; for 65 % of the programs the CALLEE
+templates are drawn too (`prelude` / `callee`: several symbols per declaration, tuple
+declarations, array / tagged / initialised ports, ports under if / else / for / while /
+nested blocks, outputs first, shuffled order, `custom`, `parallel`), and the generator
+returns their ports in the order it wrote the declarations; `parser_pairs` draws
+statements in the spellings the PARSER desugars (`==>`, `-->`, multi-symbol
+declarations, named inputs) together with their plain spelling.
 """
 import c18gen
 
@@ -28,9 +36,133 @@ TEMPLATES = {
     "B12": (["x1"], ["y1", "y2"], False), "B22": (["x1", "x2"], ["y1", "y2"], False),
     "B23": (["x1", "x2"], ["y1", "y2", "y3"], False), "P1": (["x1"], ["y"], True),
 }
-BY_OUTPUTS = {}
-for _n, (_i, _o, _p) in TEMPLATES.items():
-    BY_OUTPUTS.setdefault(len(_o), []).append(_n)
+
+
+def by_outputs(templates):
+    out = {}
+    for n, (_i, o, _p) in templates.items():
+        out.setdefault(len(o), []).append(n)
+    return out
+
+
+BY_OUTPUTS = by_outputs(TEMPLATES)
+
+# ---- callee templates: every spelling that decides the recorded port order ------------
+SHAPES = [("A0", 0, 1, False), ("A1", 1, 1, False), ("A2", 2, 1, False), ("A3", 3, 1, False), ("B00", 0, 0, False),
+          ("B10", 1, 0, False), ("B12", 1, 2, False), ("B22", 2, 2, False), ("B23", 2, 3, False), ("P1", 1, 1, True),
+          ("C32", 3, 2, False), ("C13", 1, 3, True)]
+
+
+def callee(r, name, n_in, n_out, has_param, feats):
+    """One callee template as text, with its ports in DECLARATION order:
+    -> (text, [(input, dims)], [(output, dims)], is_custom).  The order is fixed HERE, by the order in which
+    the declarations are written out; nothing reads it back from an AST."""
+    ports = [("input", "x%d" % (k + 1)) for k in range(n_in)] + \
+            [("output", ("y%d" % (k + 1)) if n_out > 1 else "y") for k in range(n_out)]
+    style = r.randrange(4)
+    if style == 1:
+        ports = [p for p in ports if p[0] == "output"] + [p for p in ports if p[0] == "input"]
+        if n_in and n_out:
+            feats.add("callee_outputs_first")
+    elif style >= 2:
+        r.shuffle(ports)
+        feats.add("callee_shuffled")
+    # groups of consecutive ports of one kind -> one declaration with several symbols
+    groups = []
+    for kind, nm in ports:
+        dims = 0 if r.random() < 0.8 else r.randrange(1, 3)
+        if groups and groups[-1][0] == kind and r.random() < 0.55:
+            groups[-1][1].append((nm, dims))
+        else:
+            groups.append((kind, [(nm, dims)]))
+    ins, outs = [], []
+    units = []                                    # texts of the declarations, in order
+    for kind, syms in groups:
+        tags = ""
+        if r.random() < 0.12:
+            tags = r.choice([" {tg}", " {t1, t2}"])
+            feats.add("callee_tag")
+
+        def sym(nm, dims):
+            return nm + "".join("[%s]" % r.choice(["2", "3", "n"] if has_param else ["2", "3"]) for _ in range(dims))
+        if len(syms) > 1:
+            feats.add("callee_multi_symbol")
+        if any(d for _n, d in syms):
+            feats.add("callee_array_port")
+        if len(syms) > 1 and r.random() < 0.2:
+            text = "signal %s%s (%s);" % (kind, tags, ", ".join(sym(n, d) for n, d in syms))
+            feats.add("callee_tuple_decl")
+        elif kind == "output" and r.random() < 0.2:
+            op = r.choice(["<==", "<--"])
+            text = "signal %s%s %s;" % (kind, tags, ", ".join("%s %s %d" % (sym(n, d), op, k) for k, (n, d) in enumerate(syms)))
+            feats.add("callee_init_port")
+        else:
+            text = "signal %s%s %s;" % (kind, tags, ", ".join(sym(n, d) for n, d in syms))
+        (ins if kind == "input" else outs).extend(syms)
+        units.append(text)
+    # junk between the declarations, and control flow around them
+    body = []
+    k = 0
+    while k < len(units):
+        u = units[k]
+        j = r.randrange(20)
+        if j < 11:
+            body.append(u)
+        elif j == 11 and k + 1 < len(units):
+            body.append("if (%s) { %s } else { %s }" % (r.choice(["1 == 1", "0", "n == 0" if has_param else "1"]), u, units[k + 1]))
+            k += 1
+            feats.add("callee_port_in_if_else")
+        elif j == 12:
+            body.append("if (%s) { %s }" % (r.choice(["1", "0"]), u))
+            feats.add("callee_port_in_if")
+        elif j == 13:
+            body.append("for (var i%d = 0; i%d < 1; i%d++) { %s }" % (k, k, k, u))
+            feats.add("callee_port_in_loop")
+        elif j == 14:
+            body.append("while (0) { %s }" % u)
+            feats.add("callee_port_in_loop")
+        elif j == 15:
+            body.append("{ %s }" % u)
+            feats.add("callee_port_in_block")
+        elif j == 16:
+            body.append("if (1) { { %s } while (0) { var u%d = 0; } }" % (u, k))
+            feats.add("callee_port_nested")
+        elif j == 17:
+            body.append("signal m%d; %s" % (k, u))
+        elif j == 18:
+            body.append("var k%d = 0, j%d; %s component c%d;" % (k, k, u, k))
+        else:
+            body.append(u)
+        k += 1
+    plain_in = [n for n, d in ins if d == 0]
+    for n, d in outs:
+        if d == 0 and r.random() < 0.5 and not any(("%s <" % n) in b for b in body):
+            body.append("%s <== %s;" % (n, plain_in[0] if plain_in else "1"))
+    custom = r.random() < 0.06
+    par = r.random() < 0.1
+    if custom:
+        feats.add("callee_custom")
+    if par:
+        feats.add("callee_parallel")
+    head = "template %s%s%s(%s)" % ("custom " if custom else "", "parallel " if par else "", name, "n" if has_param else "")
+    return "%s { %s }\n" % (head, " ".join(body)), ins, outs, custom
+
+
+def prelude(r, feats):
+    """A program prelude with freshly drawn callee templates: -> (text, TEMPLATES-like table, ports table)."""
+    texts, table, ports = [], {}, {}
+    any_custom = False
+    shapes = list(SHAPES)
+    if r.random() < 0.3:
+        r.shuffle(shapes)
+    for name, n_in, n_out, has_param in shapes:
+        text, ins, outs, custom = callee(r, name, n_in, n_out, has_param, feats)
+        any_custom = any_custom or custom
+        texts.append(text)
+        table[name] = ([n for n, _d in ins], [n for n, _d in outs], has_param)
+        ports[name] = (ins, outs)
+    head = "pragma circom 2.0.0;\n" + ("pragma custom_templates;\n" if any_custom else "")
+    return head + "".join(texts) + "function f1(x) { return x + 1; }\n", table, ports
 
 INFIX = ["+", "-", "*", "/", "\\", "%", "**", "<<", ">>", "&", "|", "^", "==", "!=", "<", ">", "<=", ">=", "&&", "||"]
 PREFIX = ["-", "!", "~"]
@@ -38,10 +170,12 @@ OPS = ["<==", "<--", "="]
 
 
 class Gen:
-    def __init__(self, rng, host, mode):
+    def __init__(self, rng, host, mode, templates=None):
         self.r = rng
         self.host = host        # "T" | "F"
         self.mode = mode        # "valid" | "wild"
+        self.templates = templates or TEMPLATES
+        self.by_outputs = by_outputs(self.templates)
         self.fresh = 0
         self.loopvars = []
         self.features = set()
@@ -98,10 +232,10 @@ class Gen:
         """An anonymous component call; `outputs`: required number of outputs
         (None: any).  valid: arity and names right, arguments single valued."""
         if outputs is None:
-            t = self.pick(list(TEMPLATES))
+            t = self.pick(list(self.templates))
         else:
-            t = self.pick(BY_OUTPUTS.get(outputs) or list(TEMPLATES))
-        ins, outs, has_param = TEMPLATES[t]
+            t = self.pick(self.by_outputs.get(outputs) or list(self.templates))
+        ins, outs, has_param = self.templates[t]
         if not valid and self.p(0.08):
             t = "Nope"
         self.features.add("anon%d" % len(outs))
@@ -372,17 +506,115 @@ EXTRA = "function f2(x, y) { return x * y; }\n"
 
 
 def programs(rng, n):
-    """n seeded random programs: (label, source, mode, features)."""
+    """n seeded random programs: (label, source, mode, features, ports) - ports: the callee templates' ports in
+    declaration order as the generator wrote them (None: the fixed prelude, c18gen.PORTS)."""
     out = []
     for i in range(n):
         mode = "valid" if rng.random() < 0.55 else "wild"
         host = "T" if rng.random() < 0.85 else "F"
-        g = Gen(rng, host, mode)
+        feats = set()
+        pre, table, ports = (None, None, None)
+        if rng.random() < 0.65:
+            pre, table, ports = prelude(rng, feats)
+        g = Gen(rng, host, mode, table)
+        g.features = feats
         k = rng.randrange(1, 5)
-        body = [g.stmt(2) for _ in range(k)]
+        depth = rng.choice([2, 2, 2, 3, 3, 4])
+        if depth >= 3:
+            g.features.add("stmt_depth%d" % depth)
+        body = [g.stmt(depth) for _ in range(k)]
         sep = rng.choice(["\n  ", " ", "\n\n   "])
-        src = c18gen.program(host, sep.join(body), extra=EXTRA)
-        out.append(("rand/%s/%s/%d" % (mode, host, i), src, mode, sorted(g.features)))
+        src = c18gen.program(host, sep.join(body), extra=EXTRA, prelude=pre)
+        out.append(("rand/%s/%s/%d" % (mode, host, i), src, mode, sorted(g.features), ports))
+    return out
+
+
+# ---- the PARSER's share of the sugar --------------------------------------------------
+# Three builders on the parser side decide what the desugarer is given: the grammar actions of
+# `E ==> L` / `E --> L` (destination and value swapped, lang.lalrpop ParseSubstitution),
+# ast_shortcuts::split_declaration_into_single_nodes[_and_multi_substitution] (declarations of several
+# symbols, with one initialiser each or one tuple initialiser) and the named inputs of an anonymous
+# component (`names`).  Each pair below is a statement in that spelling and the SAME statement in the plain
+# spelling; lib/props/C18.py (parser_oracle) states what the AST of the first must be in terms of the AST of
+# the second (metas erased).
+OPTEXT = {"<==": "acs", "<--": "as", "=": "av"}
+
+
+def parser_pairs(rng, n):
+    """-> list of dicts: label, kind, sugared / reference (sources), host, expect (how to build the expected AST)."""
+    out = []
+    for i in range(n):
+        host = "T" if rng.random() < 0.8 else "F"
+        g = Gen(rng, host, "valid")
+        kind = rng.choice(["rev", "rev", "decltuple", "decltuple", "decllist", "decllist", "named", "named"])
+        wrap = "{S}"       # the statement stands at the top level of the body: the oracle finds it by position
+        exp = {}
+        if kind == "rev":
+            arrow, plain = rng.choice([("==>", "<=="), ("-->", "<--")])
+            cnt = rng.choice([1, 1, 2, 3, 4])
+            if cnt == 1:
+                lhs, rhs = g.lvalue(), g.value(3, 1)
+                if lhs == "_":
+                    lhs = "o"
+            else:
+                lhs, rhs = g.ltuple(rng.randrange(1, 4), cnt), g.value(rng.randrange(1, 4), cnt)
+            sug = "%s %s %s;" % (rhs, arrow, lhs)
+            ref = "%s %s %s;" % (lhs, plain, rhs)
+        elif kind == "decltuple":
+            kw, xt, ops = rng.choice([("var", "var", ["="]), ("signal", "(sig mid)", ["<==", "<--"]),
+                                      ("signal input", "(sig in)", ["<==", "<--"]), ("signal output {tg}", "(sig out tg)", ["<==", "<--"]),
+                                      ("component", "comp", ["="])])
+            k = rng.randrange(1, 5)
+            names = [g.name() for _ in range(k)]
+            dims = [rng.choice([[], [], [], ["2"], ["3", "2"]]) for _ in range(k)]
+            syms = ", ".join(nm + "".join("[%s]" % d for d in ds) for nm, ds in zip(names, dims))
+            exp = {"xtype": xt, "decls": list(zip(names, dims))}
+            if rng.random() < 0.8:
+                op = rng.choice(ops)
+                rhs = g.value(rng.randrange(1, 4), max(k, 2)) if k > 1 or rng.random() < 0.5 else g.value(2, 1)
+                sug = "%s (%s) %s %s;" % (kw, syms, op, rhs)
+                # the reference statement holds the same right-hand side under the same operator; the destination
+                # tuple `(n1, .., nk)` is built by the oracle (a one-element parenthesis is not a tuple in an expression)
+                ref = "(o, p) %s %s;" % (op, rhs)
+                exp["init"] = True
+                exp["op"] = OPTEXT[op]
+            else:
+                sug = "%s (%s);" % (kw, syms)
+                ref = "v++;"
+                exp["init"] = False
+        elif kind == "decllist":
+            kw, xt, op = rng.choice([("var", "var", "="), ("signal", "(sig mid)", "<=="), ("signal", "(sig mid)", "<--"),
+                                     ("signal output", "(sig out)", "<=="), ("signal input {t1, t2}", "(sig in t1 t2)", "<--"),
+                                     ("component", "comp", "=")])
+            k = rng.randrange(1, 5)
+            names = [g.name() for _ in range(k)]
+            dims = [rng.choice([[], [], [], ["2"], ["3", "2"]]) for _ in range(k)]
+            inits = [None if (op != "<--" and rng.random() < 0.35) else
+                     (rng.choice(["A1()", "P1(2)"]) if kw == "component" else g.value(2, 1)) for _ in range(k)]
+            sug = "%s %s;" % (kw, ", ".join(nm + "".join("[%s]" % d for d in ds) + ((" %s %s" % (op, e)) if e is not None else "")
+                                            for nm, ds, e in zip(names, dims, inits)))
+            ref = " ".join("%s %s %s;" % (nm, op, e) for nm, e in zip(names, inits) if e is not None) or "v++;"
+            exp = {"xtype": xt, "decls": list(zip(names, dims)), "inits": [e is not None for e in inits]}
+        else:
+            t = rng.choice([x for x in TEMPLATES if TEMPLATES[x][0]])
+            ins, outs, has_param = TEMPLATES[t]
+            k = len(ins) if rng.random() < 0.8 else rng.randrange(1, 4)
+            args = [g.value(2, 1) for _ in range(k)]
+            names = [rng.choice(ins + ["zz", "x9"]) if rng.random() < 0.15 else (ins[j] if j < len(ins) else "x%d" % (j + 1)) for j in range(k)]
+            ops = [rng.choice(OPS) for _ in range(k)]
+            order = list(range(k))
+            rng.shuffle(order)
+            par = "parallel " if rng.random() < 0.15 else ""
+            params = g.plain(1) if has_param else ""
+            call_named = "%s%s(%s)(%s)" % (par, t, params, ", ".join("%s %s %s" % (names[j], ops[j], args[j]) for j in order))
+            call_plain = "%s%s(%s)(%s)" % (par, t, params, ", ".join(args[j] for j in order))
+            lv = rng.choice(["o <==", "v =", "(o, p) <--", "arr[0] <==", "_ <=="])
+            sug, ref = "%s %s;" % (lv, call_named), "%s %s;" % (lv, call_plain)
+            exp = {"names": [(OPTEXT[ops[j]], names[j]) for j in order]}
+        out.append({"label": "parser/%s/%d" % (kind, i), "kind": kind, "host": host, "expect": exp,
+                    "statement": sug, "reference_statement": ref,
+                    "sugared": c18gen.program(host, wrap.format(S=sug), extra=EXTRA),
+                    "reference": c18gen.program(host, wrap.format(S=ref), extra=EXTRA)})
     return out
 
 
